@@ -123,6 +123,9 @@ def judge(item, options=None, simplify=False, which=("dae", "init")):
     """-> (records, info)   info: {"drift": [...], "dropped_pts": n, "status": ...}"""
     prog, exp = item["prog"], item["expect"]
     info = {"drift": [], "status": "ok"}
+    if exp["kind"] == "any":        # the properties do not decide this program (empty slice outside the bounds)
+        info["status"] = "any"
+        return [], info
     if exp["kind"] == "reject":
         # the property requires generation to fail; if it does not, show what was selected instead
         pts = []
